@@ -21,7 +21,8 @@ SHAPES_2D = [
 ]
 SHAPES_NA = [("na", "cat"), ("na", "mr"), ("na", "cat_date"), ("na", "datetime")]
 # numeric array grouped by two variables: the array is the table dimension
-SHAPES_NA3 = [("na", "cat", "cat"), ("na", "cat", "cat_date"), ("na", "text", "cat")]
+SHAPES_NA3 = [("na", "cat", "cat"), ("na", "cat", "cat_date"), ("na", "text", "cat"),
+              ("na", "cat", "mr"), ("na", "mr", "cat"), ("na", "mr", "mr")]
 SHAPES_1D = [("cat",), ("mr",), ("cat_date",), ("datetime",), ("text",), ("numeric",),
              ("logical",), ("na",)]
 SHAPES_3D = [
